@@ -712,7 +712,11 @@ printf("debug> '%s' is a macro.  param_count=%d\n", token, param_count);
         else
       {
         char *expanded = macros_expand_params(asm_context, macro, param_count);
-        if (expanded == NULL) { return TOKEN_EOF; }
+        if (expanded == NULL)
+        {
+          asm_context->error_count++;
+          return TOKEN_EOF;
+        }
         if (macros_push_define(&asm_context->macros, expanded) != 0)
         {
           asm_context->error_count++;
